@@ -36,7 +36,7 @@ class Program:
         self.drop_impl = {}
         for im in facts["impls"]:
             if im.get("trait") == "core::ops::Drop":
-                adt = adt_head(im["self_ty"])
+                adt = im.get("self_adt") or adt_head(im["self_ty"])
                 for it in im["items"]:
                     if it["name"] == "drop":
                         self.drop_impl[adt] = it["id"]
@@ -177,12 +177,12 @@ class Program:
                     out.append((tid, rb))
         return out
 
-    def drop_targets(self, ty, seen=None):
+    def drop_targets(self, ty, seen=None, adts=None):
         """Local functions run by dropping a value of type string `ty` (Drop impls of local ADTs mentioned in it,
-        transitively through fields)."""
+        transitively through fields). `adts`: exact ADT def paths mentioned in the type, when the exporter gave them."""
         seen = seen if seen is not None else set()
         out = []
-        for adt in adts_in(ty):
+        for adt in (adts if adts is not None else adts_in(ty)):
             if adt in seen:
                 continue
             seen.add(adt)
@@ -192,7 +192,7 @@ class Program:
             if a:
                 for v in a["variants"]:
                     for fd in v["fields"]:
-                        out += self.drop_targets(fd["ty"], seen)
+                        out += self.drop_targets(fd["ty"], seen, fd.get("adts"))
         return out
 
     def out_edges(self, fid, binding=None, opaque_traits=()):
@@ -223,7 +223,7 @@ class Program:
                 for tid, rb in self.callee_targets(r["o"]["c"]["f"], binding):
                     out.append((tid, rb, "fnitem", site))
         for site, t in b.drops():
-            for tid in self.drop_targets(t["ty"]):
+            for tid in self.drop_targets(t["ty"], None, t.get("adts")):
                 out.append((tid, {}, "drop", site))
         return out
 
